@@ -98,9 +98,12 @@ class NestedSpace1(Space):
     name = 'N1'
     ATOMS = [('X', 0), ('X', 1), ('R', 0), ('R', 1), ('B', 0)]
 
-    def __init__(self, max_len, reps=(1, 2), bodies=None, atoms=None):
+    def __init__(self, max_len, reps=(1, 2), bodies=None, atoms=None, block_rels=()):
         super().__init__(max_len)
         self.reps = reps
+        self.block_rels = tuple(block_rels)
+        if block_rels:
+            self.name = 'N1R'
         self.bodies = bodies or N1_BODIES
         self.atoms = atoms or self.ATOMS
         self._steps = {}
@@ -111,6 +114,9 @@ class NestedSpace1(Space):
             for body in self.bodies:
                 for rep in self.reps:
                     s.append(('sub', rep, body))
+                    for t in self.block_rels:      # blocks with a relation of their own (inserted through add_operation)
+                        for r in range(i):
+                            s.append(('sub', rep, body, None, (t, r)))
             self._steps[i] = s
         return self._steps[i]
 
